@@ -4,6 +4,7 @@ package main
 
 import (
 	"fmt"
+	"strings"
 
 	"golang.org/x/tools/go/ssa"
 )
@@ -65,4 +66,70 @@ func structObl(name, src string, ok bool, detail string) *Obligation {
 		o.Output = detail
 	}
 	return o
+}
+
+// web_routes: every HTTP route registered by web.Configure is served by a handler from a fixed list: handlers whose
+// contracts prove that authenticate dominates every data-serving call (sqlQuery, cachedQuery, index, metrics), thin
+// delegates whose only call is to one of those (asyncQuery, immediateQuery, runQuery -> sqlQuery), and the two handlers
+// the property exempts (insert: accepts data, discloses none; oauthCode: the OAuth callback itself).
+func init() {
+	structuralChecks["web_routes"] = func(s *Session) ([]*Obligation, error) {
+		fn := s.fns["web.Configure"]
+		if fn == nil {
+			return nil, fmt.Errorf("contract target missing: web.Configure")
+		}
+		verified := map[string]bool{"sqlQuery": true, "cachedQuery": true, "index": true, "metrics": true}
+		delegates := map[string]string{"asyncQuery": "sqlQuery", "immediateQuery": "sqlQuery", "runQuery": "sqlQuery"}
+		exempt := map[string]bool{"insert": true, "oauthCode": true}
+		var out []*Obligation
+		seen := map[string]bool{}
+		for _, b := range fn.Blocks {
+			for _, in := range b.Instrs {
+				mc, ok := in.(*ssa.MakeClosure)
+				if !ok {
+					continue
+				}
+				f, ok := mc.Fn.(*ssa.Function)
+				if !ok || !strings.HasSuffix(f.Name(), "$bound") {
+					continue
+				}
+				name := strings.TrimSuffix(f.Name(), "$bound")
+				if seen[name] {
+					continue
+				}
+				seen[name] = true
+				switch {
+				case verified[name] || exempt[name]:
+					out = append(out, structObl("web_routes."+name, "route handler "+name+" is under an authentication-dominance contract or exempt by the property", true, ""))
+				case delegates[name] != "":
+					// the delegate's only repo call must be its target
+					target := delegates[name]
+					okDel := true
+					detail := ""
+					if df := s.fns["(*web.handler)."+name]; df != nil {
+						for _, bb := range df.Blocks {
+							for _, ii := range bb.Instrs {
+								if c, ok := ii.(*ssa.Call); ok {
+									if callee := c.Call.StaticCallee(); callee == nil || callee.Name() != target {
+										okDel = false
+										detail = name + " calls something other than " + target
+									}
+								}
+							}
+						}
+					} else {
+						okDel = false
+						detail = "handler body not found"
+					}
+					out = append(out, structObl("web_routes."+name, "route handler "+name+" only delegates to "+target, okDel, detail))
+				default:
+					out = append(out, structObl("web_routes."+name, "route handler "+name+" is under an authentication-dominance contract or exempt by the property", false, "handler "+name+" is registered as a route but is neither verified, a delegate, nor exempt"))
+				}
+			}
+		}
+		if len(out) < 6 {
+			return nil, fmt.Errorf("web_routes: only %d route handlers found in web.Configure (expected at least 6): enumeration broken", len(out))
+		}
+		return out, nil
+	}
 }
